@@ -8,7 +8,7 @@
    note); its one order dependence (a utility reached only through nthChild.ofRule) was a genuine
    defect found by the repeated-load stream and repaired (known_findings.txt). *)
 From Coq Require Import List NArith ZArith Bool Arith Permutation.
-From AG Require Import Base.Val Base.Sort Tree.Tree Rule.Rule Rule.Traversal Rule.Scan Front.Select Front.PermSpec Front.PermProofs Front.Load Front.LoadSpec Front.Apply Front.ApplyProofs.
+From AG Require Import Base.Val Base.Sort Tree.Tree Rule.Rule Rule.Traversal Rule.Scan Front.Select Front.PermSpec Front.PermProofs Front.Load Front.LoadSpec Front.Apply Front.ApplyProofs Rule.Kinds Rule.KCache Rule.KCacheProofs.
 Import ListNotations.
 
 (* rule files in any order (distinct ids): same dispatch order, same scan result *)
@@ -57,6 +57,48 @@ Theorem C13_apply_order_independent :
     forall key, lookup key (a_trans (apply_all compute ts o1 e0)) = lookup key (a_trans (apply_all compute ts o2 e0)).
 Proof. exact ApplyProofs.C13_apply_order_independent. Qed.
 Print Assumptions C13_apply_order_independent.
+
+(* the construction-time cache of potential kinds (Rule/KCache.v): `all` / `any` compute their kind set when they
+   are built, from what their sub-rules answer at that moment; a `matches` reference answers from the registry as
+   it is when asked.  In the loader's order — any order in which every utility comes after the utilities it
+   requires on the same node — every cache equals the answer computed in the complete registry; in ANY order it is
+   never narrower (an unregistered reference answers "unknown").  So the dispatch tables do not depend on which
+   topological order the hash map produced, and no order can make a rule miss a node. *)
+Theorem C13_cache_exact :
+  forall utils uord r,
+    NoDup (map fst utils) ->
+    get_order (util_depmap utils) = OrderOk uord ->
+    exists n, forall f1 f2, n <= f1 -> n <= f2 ->
+      same_kinds (eager f1 (kenv utils) uord (kexp_of r)) (klazy f2 (kenv utils) (kexp_of r)).
+Proof. exact KCacheProofs.C13_cache_exact. Qed.
+Print Assumptions C13_cache_exact.
+
+Theorem C13_cache_wider :
+  forall utils uord order r,
+    NoDup (map fst utils) ->
+    get_order (util_depmap utils) = OrderOk uord ->
+    NoDup order -> (forall id, In id order <-> In id (map fst utils)) ->
+    exists n, forall f1 f2, n <= f1 -> n <= f2 ->
+      wider (eager f1 (kenv utils) order (kexp_of r)) (klazy f2 (kenv utils) (kexp_of r)).
+Proof. exact KCacheProofs.C13_cache_wider. Qed.
+Print Assumptions C13_cache_wider.
+
+(* the model of potential kinds used everywhere else (Rule/Kinds.v: pk) is that lazy answer *)
+Theorem C13_pk_is_lazy : forall fuel utils r, pk fuel utils r = klazy fuel (kenv utils) (kexp_of r).
+Proof. exact KCacheProofs.C01_pk_is_lazy. Qed.
+Print Assumptions C13_pk_is_lazy.
+
+(* a stale order really is wider: registering A before the B and C it refers to *)
+Example C13_cache_ex :
+  let A := [65]%N in let B := [66]%N in let C := [67]%N in
+  let utils := [ (A, RAll [RNth 0%Z 1%Z false (Some (RMatches B)); RAny [RMatches C; RKind 9]]);
+                 (B, RKind 7); (C, RAll [RKind 7; RMatches B]) ] in
+  get_order (util_depmap utils) = OrderOk [B; C; A]
+  /\ eager 50 (kenv utils) [B; C; A] (kexp_of (RMatches A)) = Some [7]%N
+  /\ eager 50 (kenv utils) [C; A; B] (kexp_of (RMatches A)) = Some [7; 9]%N
+  /\ eager 50 (kenv utils) [A; B; C] (kexp_of (RMatches A)) = None.
+Proof. vm_compute. repeat split; reflexivity. Qed.
+Print Assumptions C13_cache_ex.
 
 (* non-vacuity: two admissible orders of  X <- A, Y <- X, Z <- A  (keys 1,2,3; 0 is the source) *)
 Example C13_topo_ex :
